@@ -690,7 +690,10 @@ def while_loop(I: Interp, st: ast.While, fr: Frame) -> None:
 
 
 def _range_step(seq: VList) -> int | None:
-    if seq.kind != "range" or not seq.items or len(seq.items) < 2:
+    # a range, or a concrete list of ints in arithmetic progression (`list(range(1, 0x80))`)
+    if seq.kind not in ("range", "list") or not seq.items or len(seq.items) < 2:
+        return None
+    if not all(isinstance(x, VInt) for x in seq.items):
         return None
     vals = [x.concrete() if isinstance(x, VInt) else None for x in seq.items]
     if any(v is None for v in vals):
@@ -707,6 +710,9 @@ def invariant_for(I: Interp, st: Any, fr: Frame, it: V, lc: LoopContract,
     else:
         seq = VList(I.iterate(it))
     n = seq.length()
+    hook = I.ghost.get("__iter_hook")
+    if hook is not None:
+        hook(key, it)  # contracts may state *which* sequence a loop walks
     kname = f"__k{key[1]}"
     fr.env[kname] = VInt(0)
     I.ghost["__loop_len"] = n  # number of elements the loop is going to visit
